@@ -84,8 +84,15 @@ class Deferred(Node):
                 res = mixin.call(scope, args)
                 if res:
                     # Add variables to scope to support
-                    # closures
-                    [scope.add_variable(v) for v in mixin.vars]
+                    # closures (the mixin's own parameters shadow them)
+                    bound = [
+                        a if isinstance(a, str) else a.tokens[0][0]
+                        for a in mixin.args
+                    ]
+                    [
+                        scope.add_variable(v) for v in mixin.vars
+                        if v.name not in bound
+                    ]
                     scope.deferred = ident
                     break
 
